@@ -248,6 +248,8 @@ class Check:
                 print(f["line"])
         rc = 0
         shown = 0
+        if os.environ.get("VERIF_DUMP_VIOLATIONS"):
+            json.dump([d for d, j in self.violations], open(os.environ["VERIF_DUMP_VIOLATIONS"], "w"))
         for d, job in self.violations:
             if shown < 10:
                 p = self.write_replay(d, job)
